@@ -237,8 +237,18 @@ def run(chk):
 
 
 def replay(prop, path):
-    import check
-    return check.generic_replay(prop, path)
+    """Re-run one recorded case on the real code (a case that kills the worker is minimised in sub-processes) and print what happens."""
+    rec = json.load(open(path))
+    case = rec.get("case") or (rec.get("replay_example") or {}).get("case") or rec
+    chk = vcheck.Check(prop, "replay")
+    chk.known = []
+    res = run_cases(chk, [case], "replay")
+    chk.absorb("shapes-reflect", [case], res, crash_sig=crash_sig)
+    proto = chk.replay("shapes-proto", [case], "proto", workers=1)
+    log(((proto[0].get("out") or {}).get("note") or "").rstrip())
+    for v in ((res[0].get("out") or {}).get("viol") or []):
+        log("  " + v["sig"] + "\n      " + v["detail"][:1200].replace("\n", "\n      "))
+    return chk.finish()
 
 
 def selftest(prop):
